@@ -108,6 +108,28 @@ def _tag_literal(node, _variables):
     return _parse_tag(node.value)
 
 
+# ------------------------------------- the raising user scalar Odd
+class OddBoom(Exception):
+    """an arbitrary exception (neither ValueError nor TypeError) raised by user
+    scalar code: ScalarType.parse lets it bubble up"""
+
+
+def _parse_odd(value):
+    if isinstance(value, bool) or not isinstance(value, int):
+        raise TypeError("Odd must be an integer")
+    if value == 13:
+        raise OddBoom("unlucky")
+    if value % 2 == 0:
+        raise ValueError("Odd must be odd")
+    return value
+
+
+def _odd_literal(node, _variables):
+    if type(node) is not A.IntValue:
+        raise TypeError("Invalid literal %s" % node.__class__.__name__)
+    return _parse_odd(int(node.value, 10))
+
+
 # ----------------------------------------------------------------- schemas
 def tdefs(sd):
     return {td["name"]: td for td in sd["types"]}
@@ -139,6 +161,9 @@ class Built:
             elif k == "scalar":
                 if td["scalar"] == "any":
                     self.types[td["name"]] = default_scalar(td["name"])
+                elif td["scalar"] == "odd":
+                    self.types[td["name"]] = ScalarType(
+                        td["name"], serialize=int, parse=_parse_odd, parse_literal=_odd_literal)
                 else:
                     self.types[td["name"]] = ScalarType(
                         td["name"], serialize=str, parse=_parse_tag, parse_literal=_tag_literal)
@@ -307,7 +332,7 @@ def cschema(sd):
         if k == "enum":
             d = "TDEnum %s" % ser.clist(td["values"], lambda nv: "(%s, %s)" % (ser.cstr(nv[0]), cpv(nv[1])))
         elif k == "scalar":
-            d = "TDScalar %s" % ("KAny" if td["scalar"] == "any" else "KTag")
+            d = "TDScalar %s" % {"any": "KAny", "tag": "KTag", "odd": "KOdd"}[td["scalar"]]
         elif k == "input":
             d = "TDInput %s" % ser.clist(td["fields"], cfield)
         else:
@@ -325,6 +350,7 @@ def fixed_schema():
         {"name": "Color", "kind": "enum", "values": [["RED", 1001], ["GREEN", "g_internal"], ["BLUE", "blue"]]},
         {"name": "Any1", "kind": "scalar", "scalar": "any"},
         {"name": "Tag", "kind": "scalar", "scalar": "tag"},
+        {"name": "Odd", "kind": "scalar", "scalar": "odd"},
         {"name": "Out", "kind": "output"},
         {"name": "Point", "kind": "input", "fields": [
             {"name": "x", "py": "x", "type": N("Int", True), "default": None},
@@ -342,6 +368,7 @@ def fixed_schema():
             {"name": "ratio", "py": "ratio", "type": N("Float", True), "default": [1.5]},
             {"name": "flag", "py": "is_flag", "type": N("Boolean"), "default": None},
             {"name": "ident", "py": "ident", "type": N("ID"), "default": None},
+            {"name": "odds", "py": "odds_py", "type": L(N("Odd")), "default": None},
         ]},
     ]}
 
@@ -356,6 +383,7 @@ def random_schema(rng):
         {"name": "E", "kind": "enum", "values": [[n, v] for n, v in zip(enum_names, internal)]},
         {"name": "Any1", "kind": "scalar", "scalar": "any"},
         {"name": "Tag", "kind": "scalar", "scalar": "tag"},
+        {"name": "Odd", "kind": "scalar", "scalar": "odd"},
         {"name": "Out", "kind": "output"},
     ]
     sd = {"types": types}
@@ -363,7 +391,7 @@ def random_schema(rng):
     inames = ["In%d" % i for i in range(n_inputs)]
     for nm in inames:
         types.append({"name": nm, "kind": "input", "fields": []})
-    leafs = ["Int", "Float", "String", "ID", "Boolean", "E", "Any1", "Tag"]
+    leafs = ["Int", "Float", "String", "ID", "Boolean", "E", "Any1", "Tag", "Odd"]
     for idx, nm in enumerate(inames):
         fields = []
         for k in range(rng.randint(2, 5)):
@@ -398,6 +426,7 @@ FLOAT_POOL = [0.0, 1.5, -2.25, 100.0, 0.001, 12345.678, 3, -7, 0.1, 2.5e10, 2 **
 STR_POOL = ["", "abc", "hello world", "RED", "A", "x\"y", "été", "line\nbreak", "1", "true", "back\\slash"]
 ID_POOL = ["id-1", "", "42", 0, 17, -5, 10 ** 20]
 TAG_POOL = ["t", "tag two", "T3"]
+ODD_POOL = [1, 3, -5, 7, 99, 2 ** 31 + 1, -1]
 ANY_POOL = ["free", True, False, 12, -3, 1.25, "", 2 ** 40]
 
 WRONG_LABELS = [
@@ -429,6 +458,7 @@ _WRONG_KIND = {
     "ID": [1.5, True, {"a": 1}],
     "Boolean": [0, 1, "true", "", 1.5],
     "tag": [5, True, "", {"a": 1}],
+    "odd": [2, 0, "3", True, 1.5, -4],
     "enum": [3, True, 1.5],
     "input": ["str", 3, True],
 }
@@ -479,6 +509,11 @@ def gen_json(rng, sd, t, depth, plan):
             return rng.choice([True, False])
         if sk == "tag":
             return rng.choice(TAG_POOL)
+        if sk == "odd":
+            # 13 makes the user scalar raise an arbitrary exception: planted only
+            if lab == "user-exception" and plan.fire(0.8):
+                return 13
+            return rng.choice(ODD_POOL)
         return rng.choice(ANY_POOL)
     if kind == "enum":
         if lab == "unknown-enum" and plan.fire(0.7):
@@ -628,6 +663,10 @@ LIT_MUTANTS = [
     ("lit-neg-exponent-float", "Float", "-25E-2"),
     ("lit-object-for-scalar", "Int", "{a: 1}"),
     ("lit-block-string", "String", '"""blk"""'),
+    ("lit-string-for-odd", "odd", '"3"'),
+    ("lit-even-for-odd", "odd", "4"),
+    ("lit-odd", "odd", "-7"),
+    ("user-exception", "odd", "13"),
 ]
 
 
